@@ -409,6 +409,7 @@ def DocTok(src, classes=None):
 
 
 def DocList(src, lenpred=None, classes=None, name='doc'):
+    name = name or 'doc'
     return ListS(DocTok(src, classes), lenpred, name)
 
 
